@@ -172,6 +172,8 @@ class NameValuePairList(ParsableBase, Serializable):
             composer.compose_string(name)
             if value is not None:
                 composer.compose_separator('=')
+                if value[:1] in (' ', '\t') or value[-1:] in (' ', '\t'):
+                    value = '"{}"'.format(value)
                 composer.compose_string(value)
 
             if item_number + 1 < len(self.value):
